@@ -83,7 +83,7 @@ pub fn form_groups(name: &str, same_operand: bool) -> Vec<Vec<u16>> {
         ("f" | "d", "subi" | "divi") => vec![(0..7).collect(), vec![7, 8, 9, 10, 11]],
         ("f" | "d", "subu" | "divu") => vec![(0..7).collect(), vec![7, 8, 9, 10, 11]],
         ("f" | "d", "diveuclid") => r(8),
-        ("f" | "d", "split" | "powf" | "exp" | "ln" | "expm1" | "ln1p") => r(2),
+        ("f" | "d", "split" | "powf" | "exp" | "ln" | "expm1" | "ln1p" | "big") => r(2),
         ("f" | "d", "shl" | "shr") => with_take(r(3)),
         ("f" | "d", "neg") => r(2),
         ("f" | "d", "sqr" | "cubic" | "sqrt" | "powi") => r(2),
